@@ -493,6 +493,9 @@ func verifC39MCoins(c *verifC39Case, in *verifC39VerifyIn, lnpw uint64) string {
 
 func verifC39Exec(line string) string {
 	res := vh.Catch(func() string {
+		if strings.HasPrefix(line, "fg ") {
+			return verifC39ExecForge(line)
+		}
 		o := verifC39Parse(line)
 		c := verifC39Build(&o)
 		if c.createErr != "" {
@@ -855,6 +858,7 @@ func verifC39GenMutations(rng *vh.Rng, o *verifC39Op, c *verifC39Case, coins []u
 }
 
 func verifC39Generate(emit func(op string)) {
+	verifC39GenForge(vh.NewRng(VerifC39MixSeed(vh.Seed(), 0xF09)), emit)
 	rng := vh.NewRng(VerifC39MixSeed(vh.Seed(), 0xC39))
 	ncases := vh.Budget(70, 6000)
 	for i := 0; i < ncases; i++ {
@@ -951,6 +955,306 @@ func VerifC39GenLedgerCase(rng *vh.Rng, idx int, thr uint64) (string, uint64) {
 		o.lnpw, _ = LnIntApproximation(o.pw)
 	}
 	return "v" + o.caseLine(), total
+}
+
+// ------------------------------------------------------------------------------------ forged proofs (built from scratch)
+//
+//   fg msg=<m> rnd=<r> pw=<provenWeight> lnpw=<ln> st=<strength> life=<l> parts=<w>:<keyid>,...
+//      sigs=<pos>:<L>:<keyid>,...|-   the ATTACKER's signature array: occupied slots only, L chosen freely; the signature is
+//                                     the real one of key <keyid> on (rnd, msg) — valid for the slot iff it is the participant's key
+//      sw=<claimed SignedWeight> pos=<PositionsToReveal>|- rev=<revealed positions>|- coins=<coins of the real generator for
+//      the verifier's seed, len(pos)+1 of them>|-
+//   ⇒ coins=ok|bad verify=<verdict>
+// SigCommit and both vector-commitment proofs are built honestly over the attacker's array (self-consistent commitments), so
+// the only thing between the forgery and acceptance are the signature check and the coin-in-slot comparison.
+
+type verifC39Forge struct {
+	msg, rnd, pw, lnpw, st, life, sw uint64
+	weights, keys                     []uint64
+	sigPos, sigL, sigKey              []uint64
+	pos, rev                          []uint64
+	coins                             string
+}
+
+func (f *verifC39Forge) line(coins string) string {
+	ps := make([]string, len(f.weights))
+	for i := range ps {
+		ps[i] = fmt.Sprintf("%d:%d", f.weights[i], f.keys[i])
+	}
+	ss := make([]string, len(f.sigPos))
+	for i := range ss {
+		ss[i] = fmt.Sprintf("%d:%d:%d", f.sigPos[i], f.sigL[i], f.sigKey[i])
+	}
+	sg := strings.Join(ss, ",")
+	if sg == "" {
+		sg = "-"
+	}
+	return fmt.Sprintf("fg msg=%d rnd=%d pw=%d lnpw=%d st=%d life=%d parts=%s sigs=%s sw=%d pos=%s rev=%s coins=%s",
+		f.msg, f.rnd, f.pw, f.lnpw, f.st, f.life, strings.Join(ps, ","), sg, f.sw, verifC39Join(f.pos), verifC39Join(f.rev), coins)
+}
+
+func verifC39ParseForge(line string) verifC39Forge {
+	var f verifC39Forge
+	for _, kv := range strings.Fields(line)[1:] {
+		i := strings.IndexByte(kv, '=')
+		k, v := kv[:i], kv[i+1:]
+		switch k {
+		case "msg":
+			f.msg = vh.U(v)
+		case "rnd":
+			f.rnd = vh.U(v)
+		case "pw":
+			f.pw = vh.U(v)
+		case "lnpw":
+			f.lnpw = vh.U(v)
+		case "st":
+			f.st = vh.U(v)
+		case "life":
+			f.life = vh.U(v)
+		case "sw":
+			f.sw = vh.U(v)
+		case "parts":
+			for _, p := range strings.Split(v, ",") {
+				wk := strings.Split(p, ":")
+				f.weights = append(f.weights, vh.U(wk[0]))
+				f.keys = append(f.keys, vh.U(wk[1]))
+			}
+		case "sigs":
+			if v != "-" {
+				for _, p := range strings.Split(v, ",") {
+					x := strings.Split(p, ":")
+					f.sigPos = append(f.sigPos, vh.U(x[0]))
+					f.sigL = append(f.sigL, vh.U(x[1]))
+					f.sigKey = append(f.sigKey, vh.U(x[2]))
+				}
+			}
+		case "pos":
+			f.pos = verifC39List(v)
+		case "rev":
+			f.rev = verifC39List(v)
+		case "coins":
+			f.coins = v
+		}
+	}
+	return f
+}
+
+type verifC39Forged struct {
+	sp      *StateProof
+	partcom crypto.GenericDigest
+	data    MessageHash
+}
+
+// verifC39BuildForge: participants commitment, the attacker's signature array with its honest commitment, and the proof
+// with everything but PositionsToReveal filled in.
+func verifC39BuildForge(f *verifC39Forge) verifC39Forged {
+	var parts []basics.Participant
+	for i := range f.weights {
+		parts = append(parts, basics.Participant{PK: verifC39KeyOf(f.keys[i], f.life).ver, Weight: f.weights[i]})
+	}
+	hf := crypto.HashFactory{HashType: HashType}
+	partTree, err := merklearray.BuildVectorCommitmentTree(basics.ParticipantsArray(parts), hf)
+	if err != nil {
+		panic(err)
+	}
+	sigs := make([]sigslot, len(parts))
+	for i, p := range f.sigPos {
+		sigs[p] = sigslot{Weight: parts[p].Weight, sigslotCommit: sigslotCommit{Sig: verifC39Sign(f.sigKey[i], f.life, f.rnd, f.msg), L: f.sigL[i]}}
+	}
+	sigTree, err := merklearray.BuildVectorCommitmentTree(committableSignatureSlotArray(sigs), hf)
+	if err != nil {
+		panic(err)
+	}
+	sigProofs, err := sigTree.Prove(f.rev)
+	if err != nil {
+		panic(err)
+	}
+	partProofs, err := partTree.Prove(f.rev)
+	if err != nil {
+		panic(err)
+	}
+	sp := &StateProof{
+		SigCommit:                  sigTree.Root(),
+		SignedWeight:               f.sw,
+		SigProofs:                  *sigProofs,
+		PartProofs:                 *partProofs,
+		MerkleSignatureSaltVersion: merklesignature.SchemeSaltVersion,
+		Reveals:                    map[uint64]Reveal{},
+		PositionsToReveal:          f.pos,
+	}
+	for _, p := range f.rev {
+		sp.Reveals[p] = Reveal{SigSlot: sigs[p].sigslotCommit, Part: parts[p]}
+	}
+	return verifC39Forged{sp: sp, partcom: partTree.Root(), data: verifC39Data(f.msg)}
+}
+
+func verifC39ExecForge(line string) string {
+	f := verifC39ParseForge(line)
+	b := verifC39BuildForge(&f)
+	v, err := MkVerifier(b.partcom, f.pw, f.st)
+	if err != nil {
+		return "mkverifier=" + verifC39ErrClass(err)
+	}
+	coinsOK := "ok"
+	if v.lnProvenWeight != f.lnpw || verifC39Join(verifC39Coins(b.partcom, v.lnProvenWeight, b.sp.SigCommit, f.sw, b.data, len(f.pos)+1)) != f.coins {
+		coinsOK = "bad"
+	}
+	verr := v.Verify(basics.Round(f.rnd), b.data, b.sp)
+	return fmt.Sprintf("coins=%s verify=%s", coinsOK, verifC39ErrClass(verr))
+}
+
+// verifC39EmitForge: the attacker commits to its array, THEN sees the coins and picks the positions list.
+//   strategy "fit":   for every coin the first revealed-able slot whose interval [L, L+Weight) (in ℕ) contains it, else `fallback`
+//   strategy "fixed": always `fallback`
+func verifC39EmitForge(rng *vh.Rng, f verifC39Forge, nOverride int, strategy string, fallback uint64, emit func(string)) {
+	f.lnpw, _ = LnIntApproximation(f.pw)
+	n := nOverride
+	if n < 0 {
+		nr := uint64(1 + rng.Intn(3))
+		if f.sw != 0 { // numReveals(0, …) panics in getSubExpressions (C38); Prover.Ready keeps the prover away from it
+			if r, err := numReveals(f.sw, f.lnpw, f.st); err == nil {
+				nr = r
+			}
+		}
+		n = int(nr)
+	}
+	f.pos, f.rev = nil, nil
+	b := verifC39BuildForge(&f) // SigCommit does not depend on pos / rev
+	coins := verifC39Coins(b.partcom, f.lnpw, b.sp.SigCommit, f.sw, b.data, n+1)
+	seen := map[uint64]bool{}
+	for j := 0; j < n; j++ {
+		p := fallback
+		if strategy == "fit" && j < len(coins) {
+			for i, sp := range f.sigPos {
+				L, W := f.sigL[i], f.weights[sp]
+				if hi, lo := bits.Add64(L, W, 0); L <= coins[j] && (lo != 0 || coins[j] < hi) { // coin < L+W in ℕ
+					p = sp
+					break
+				}
+			}
+		}
+		f.pos = append(f.pos, p)
+		if !seen[p] {
+			seen[p] = true
+			f.rev = append(f.rev, p)
+		}
+	}
+	emit(f.line(verifC39Join(coins)))
+}
+
+func verifC39GenForge(rng *vh.Rng, emit func(string)) {
+	life := uint64(16)
+	sts := []uint64{1, 2, 4, 16, 64, 256}
+	// A. the zero-stake forgery: only a zero-weight participant signs; L = 0; the claimed signed weight is the whole stake
+	for i := 0; i < vh.Budget(30, 1500); i++ {
+		n := 2 + rng.Intn(12)
+		a := uint64(rng.Intn(n))
+		f := verifC39Forge{msg: uint64(1 + rng.Intn(3)), rnd: 16*uint64(1+rng.Intn(3)) + uint64(rng.Intn(16)), life: life, st: sts[rng.Intn(len(sts))]}
+		var total uint64
+		for p := 0; p < n; p++ {
+			w := uint64(1 + rng.Intn(1000000))
+			if uint64(p) == a || rng.Chance(10) {
+				w = 0
+			}
+			total += w
+			f.weights = append(f.weights, w)
+			f.keys = append(f.keys, uint64(rng.Intn(verifC39NumKeyIDs)))
+		}
+		if total < 4 {
+			continue
+		}
+		f.pw = total / uint64(2+rng.Intn(3))
+		f.sw = []uint64{total, f.pw + 1 + uint64(rng.Intn(int(total-f.pw))), total * 2}[rng.Intn(3)]
+		f.sigPos, f.sigKey = []uint64{a}, []uint64{f.keys[a]}
+		// B. the same with L > 0
+		f.sigL = []uint64{[]uint64{0, 0, 0, 1, uint64(rng.Intn(1000)), total - 1}[rng.Intn(6)]}
+		verifC39EmitForge(rng, f, -1, "fixed", a, emit)
+	}
+	// C/D. slots at the top of the uint64 range: L+Weight = 2^64 (wraps to 0), L = MaxUint64, and their neighbours
+	for i := 0; i < vh.Budget(30, 600); i++ {
+		max := ^uint64(0)
+		L := []uint64{1, 2, 1 << 32, 1 << 63, max - 1, max}[rng.Intn(6)]
+		W := []uint64{max - L + 1, max - L, max - L + 2, 0, 1, 2}[rng.Intn(6)] // L+W = 2^64, 2^64-1, 2^64+1
+		f := verifC39Forge{msg: uint64(1 + rng.Intn(3)), rnd: 32, life: life, st: []uint64{0, 1, 2}[rng.Intn(3)], pw: 1 + uint64(rng.Intn(3)),
+			weights: []uint64{W, 5}, keys: []uint64{1, 2}, sigPos: []uint64{0}, sigL: []uint64{L}, sigKey: []uint64{1}}
+		f.sw = []uint64{max, 1 << 63, 1<<63 + 12345, max - 7}[rng.Intn(4)]
+		verifC39EmitForge(rng, f, 1+rng.Intn(2), "fixed", 0, emit)
+	}
+	// E. exhaustive small grid of (L, Weight, claimed weight ⇒ coin): one reveal, one to three coins
+	for W := uint64(0); W <= 3; W++ {
+		for L := uint64(0); L <= 4; L++ {
+			for sw := uint64(1); sw <= 6; sw++ {
+				for msg := uint64(1); msg <= 3; msg++ {
+					for n := 1; n <= 3; n++ {
+						if !vh.Thorough() && rng.Intn(3) != 0 && !(W == 0 && L == 0) {
+							continue
+						}
+						f := verifC39Forge{msg: msg, rnd: 33, life: life, st: 0, pw: 1, sw: sw, weights: []uint64{W}, keys: []uint64{3},
+							sigPos: []uint64{0}, sigL: []uint64{L}, sigKey: []uint64{3}}
+						verifC39EmitForge(rng, f, n, "fixed", 0, emit)
+					}
+				}
+			}
+		}
+	}
+	// F. boundary (L, Weight) pairs under large claimed weights
+	bs := vh.Boundary64()
+	for i := 0; i < vh.Budget(60, 3000); i++ {
+		f := verifC39Forge{msg: uint64(1 + rng.Intn(3)), rnd: 20, life: life, st: uint64(rng.Intn(2)), pw: 1 + uint64(rng.Intn(5)),
+			weights: []uint64{bs[rng.Intn(len(bs))], bs[rng.Intn(len(bs))]}, keys: []uint64{4, 5}, sigKey: []uint64{4, 5},
+			sigPos: []uint64{0, 1}, sigL: []uint64{bs[rng.Intn(len(bs))], bs[rng.Intn(len(bs))]}}
+		f.sw = bs[rng.Intn(len(bs))]
+		if rng.Chance(50) {
+			f.sw = f.sigL[0] + f.weights[0] + uint64(rng.Intn(3)) - 1
+		}
+		verifC39EmitForge(rng, f, 1+rng.Intn(3), "fit", uint64(rng.Intn(2)), emit)
+	}
+	// G. random attacker arrays: subsets of the participants (zero-weight ones included), cumulative / shifted / overlapping L,
+	//    some signatures under the wrong key, claimed weight around the true one, positions fitted to the coins
+	for i := 0; i < vh.Budget(80, 4000); i++ {
+		n := 1 + rng.Intn(10)
+		f := verifC39Forge{msg: uint64(1 + rng.Intn(3)), rnd: 16*uint64(1+rng.Intn(3)) + uint64(rng.Intn(16)), life: life, st: []uint64{0, 1, 2, 4, 8, 32}[rng.Intn(6)]}
+		var total, acc, signed uint64
+		for p := 0; p < n; p++ {
+			w := uint64(rng.Intn(6))
+			if rng.Chance(30) {
+				w = uint64(rng.Intn(1000000))
+			}
+			total += w
+			f.weights = append(f.weights, w)
+			f.keys = append(f.keys, uint64(rng.Intn(verifC39NumKeyIDs)))
+		}
+		mode := rng.Intn(4) // 0 cumulative (honest layout), 1 all L = 0 (overlapping), 2 cumulative shifted down, 3 random
+		for p := 0; p < n; p++ {
+			if !rng.Chance(60) {
+				continue
+			}
+			L := acc
+			switch mode {
+			case 1:
+				L = 0
+			case 2:
+				if L > 0 {
+					L -= uint64(rng.Intn(int(L) + 1))
+				}
+			case 3:
+				L = uint64(rng.Intn(int(total) + 2))
+			}
+			k := f.keys[p]
+			if rng.Chance(8) {
+				k = (k + 1) % verifC39NumKeyIDs
+			}
+			f.sigPos, f.sigL, f.sigKey = append(f.sigPos, uint64(p)), append(f.sigL, L), append(f.sigKey, k)
+			acc += f.weights[p]
+			signed += f.weights[p]
+		}
+		if len(f.sigPos) == 0 {
+			continue
+		}
+		f.pw = 1 + signed/uint64(2+rng.Intn(4))
+		f.sw = []uint64{signed, signed, signed + 1, total, signed * 2, f.pw + 1}[rng.Intn(6)]
+		verifC39EmitForge(rng, f, -1, "fit", f.sigPos[rng.Intn(len(f.sigPos))], emit)
+	}
 }
 
 func TestVerifC39(t *testing.T) {
